@@ -502,6 +502,17 @@ fn predict(job: &EngineJob, msgs: &[crate::exec::MsgRec], out: &mut Vec<String>)
             }
             known = known.max(m.1);
         }
+        // the first aBit call seeds the generator of its test combinations with the first 16 bytes of the stream:
+        // the first 128 coefficient bits of its first test combination
+        {
+            let mut rng = ChaCha20Rng::from_seed(seed);
+            let mut s16 = [0u8; 16];
+            rng.fill_bytes(&mut s16);
+            let first = polytune::verif::aes_rng_fill(s16, &[16]);
+            let b: [u8; 16] = first[0].clone().try_into().expect("16 bytes");
+            out.push(json!({"ev": "predict", "name": "abit_r0", "val": crate::adv::limbs(u128::from_le_bytes(b)),
+                            "known_at": known}).to_string());
+        }
         let c = &job.circuit;
         let sb: usize = c.input_regs.iter().sum::<usize>() + c.and_ops;
         let batch = sb.min(sb.div_ceil(9).max(1000));
